@@ -575,6 +575,11 @@ func (s *AbsfsNFS) CreateWithContext(ctx context.Context, dir *NFSNode, name str
 		return nil, fmt.Errorf("create: failed to chmod %s: %w", path, err)
 	}
 
+	// Record the owner the handler chose for the new file (the caller's
+	// effective identity unless root set one explicitly), as MKDIR and
+	// SYMLINK do. Backends that cannot chown keep their default owner.
+	_ = s.fs.Chown(path, int(attrs.Uid), int(attrs.Gid))
+
 	// Invalidate parent directory caches and negative cache entries in the directory
 	s.attrCache.Invalidate(dir.path)
 	s.attrCache.InvalidateNegativeInDir(dir.path)
